@@ -441,6 +441,52 @@ func wsStorm(run *vk.Run, a childArgs) {
 			}
 		}(p)
 	}
+	// residents: members that change their own data all the time, while others join and
+	// leave (every join reads the data of every member)
+	for p := 0; p < 6; p++ {
+		wg.Add(1)
+		go func(p int) {
+			defer wg.Done()
+			id := fmt.Sprintf("res%d-%d", a.Index, p)
+			c, err := vclient.Dial(srv, id)
+			if err != nil {
+				return
+			}
+			defer c.Close()
+			if m, ok := c.Join([]string{"v1", "v2"}[p%2], "op1", "pw-op1"); !ok || m.Str("kind") != "join" {
+				return
+			}
+			sent := 0
+			defer func() {
+				run.Count("ws_resident_setdata", int64(sent))
+				ops.Add(int64(sent))
+				n := 0
+				for _, e := range c.Events() {
+					if e.M.Str("type") == "user" && e.M.Str("kind") == "change" && e.M.Str("id") == id {
+						n++
+					}
+				}
+				run.Count("ws_resident_changes_announced", int64(n))
+				if closed, _ := c.Closed(); closed {
+					run.Count("ws_residents_dropped_by_the_server", 1)
+				}
+			}()
+			for n := 0; ; n++ {
+				select {
+				case <-stop:
+					return
+				default:
+				}
+				if c.Send(vclient.Msg{"type": "useraction", "kind": "setdata", "source": id, "dest": id, "value": map[string]any{fmt.Sprintf("k%d", n%5): n}}) != nil {
+					return
+				}
+				sent++
+				if n%64 == 63 {
+					c.Ping(5 * time.Second) // do not run ahead of the server for ever
+				}
+			}
+		}(p)
+	}
 	var cwg sync.WaitGroup
 	for w := 0; w < 8; w++ {
 		cwg.Add(1)
